@@ -62,7 +62,27 @@ TraitOK(r) ==
                     [] r.fam = "has_double_subscript" -> r.sub = 2 /\ typed /\ sized
     IN  (r.got = 1) = expect
 
-Judge(r) == CASE r.e = "agg" -> AggOK(r) [] r.e = "aggeq" -> EqOK(r) [] r.e = "aggtol" -> TolOK(r)
+\* numeric limits of the element type, as every aggregate reports them, and the dimension count
+IntLim(T) == CASE T = "u8"  -> <<(<<0, 0, 0, 0>>), (<<0, 0, 0, 255>>)>>
+               [] T = "i16" -> <<(<<65535, 65535, 65535, 32768>>), (<<0, 0, 0, 32767>>)>>
+               [] T = "i32" -> <<(<<65535, 65535, 32768, 0>>), (<<0, 0, 32767, 65535>>)>>
+               [] T = "i64" -> <<(<<32768, 0, 0, 0>>), (<<32767, 65535, 65535, 65535>>)>>
+LimOK(r) == /\ r.dims = r.want
+            /\ IF IsInt(r.T)
+               THEN r.lim[1] = IntLim(r.T)[1] /\ r.lim[2] = IntLim(r.T)[2] /\ r.lim[4] = <<0, 0, 0, 0>>
+               ELSE LET f == Fmt(r.T)  v == DecAll(r.T, r.lim)
+                    IN  /\ v[1] = I!FNeg(I!MaxFinite(f)) /\ v[2] = I!MaxFinite(f)
+                        /\ v[3] = I!MinNormal(f)
+                        /\ D!DEq(I!Val(f, v[4]), D!Pow2(1 - f.p))          \* 1 + e is the successor of 1
+\* a default-constructed matrix, and any matrix after makeIdentity(), is the identity; M(a) holds a everywhere
+Isqrt(n) == CHOOSE k \in 1..4 : k * k = n
+IdentOK(r) == LET T == r.T  v == DecAll(T, r.out)  d == Isqrt(r.n)
+              IN  \A i \in 1..r.n : LET want == IF (i - 1) \div d = (i - 1) % d THEN 1 ELSE 0
+                                     IN  IF IsInt(T) THEN v[i] = want ELSE D!DEq(I!Val(Fmt(T), v[i]), D!DInt(want)) /\ v[i].sign = 0
+FillOK(r) == LET T == r.T  v == DecAll(T, r.out)  a == Dec(T, r.a[1])
+             IN  Len(v) = r.n /\ \A i \in 1..r.n : Same(T, v[i], a)
+
+Judge(r) == CASE r.e = "agglim" -> LimOK(r) [] r.e = "aggident" -> IdentOK(r) [] r.e = "aggfill" -> FillOK(r) [] r.e = "agg" -> AggOK(r) [] r.e = "aggeq" -> EqOK(r) [] r.e = "aggtol" -> TolOK(r)
               [] r.e = "agglayout" -> LayoutOK(r) [] r.e = "aggtext" -> TextOK(r) [] r.e = "aggconv" -> ConvOK(r) [] r.e = "aggtrait" -> TraitOK(r) [] OTHER -> FALSE
 What(r) == IF r.e = "agg" THEN <<r.e, r.fam, r.T, r.op, r.sp>> ELSE <<r.e, r.fam, r.T>>
 Init == l = 1 /\ cur = <<>> /\ key = <<>>
